@@ -4,13 +4,20 @@ import json, subprocess
 HOOK_COMMITS = subprocess.run(["git","-C","/repo","log","--format=%H %s"],capture_output=True,text=True).stdout.splitlines()
 hook_commits = [l.split()[0] for l in HOOK_COMMITS if l.split(' ',1)[1].startswith("verif:")]
 LW_NOTE = "Trusted base: the harness (explorer, link world, oracles), the virtual clock/rng seams of feature `verif`, rustc. Coverage is all executions with <= d deviations in the deviation window for the listed scripts/configurations (see evidence.bounds); payload values outside the tag generator and timings outside the menus are not covered."
+EW_NOTE = "Trusted base: the harness (explorer, endpoint world, monitors), the virtual clock/rng/socket seams of feature `verif` (an environment model of UDP: datagram boundaries, WouldBlock, no ICMP), rustc. Coverage is all executions with <= d deviations in the deviation window plus the completely enumerated free choice points, for the listed scripts/configurations."
 CHECKS = {
  "C01": ("model_checking", "Stateless deviation-bounded exhaustive exploration of two real HalfConnections over a harness-owned lossy/duplicating/reordering/corrupting link; per-channel delivery compared with a FIFO reference model on every execution.", "4.C01", "deviation-bounded stateless model checking of the implementation (link world) against a per-channel FIFO reference model", LW_NOTE),
  "C02": ("model_checking", "Same exploration with fault prefixes followed by a fair network: Reliable-never-skipped on every round, and bounded liveness (all Reliable packets delivered exactly once, nothing pending, send buffer 0) within an a-priori horizon of 300 s virtual time.", "4.C02", "deviation-bounded stateless model checking with fair suffix; bounded liveness", LW_NOTE),
  "C05": ("model_checking", "Ideal network, all timing/application choices (step spacing, skipped steps, extra flushes, latencies) up to d deviations: global delivery order must equal submission order minus TimeSensitive packets.", "4.C05", "deviation-bounded stateless model checking on an ideal link (timing/application choices) against a global FIFO reference model", LW_NOTE),
+ "C07": ("model_checking", "Real Server/Client/raw peers on the in-memory network: complete enumeration of the fates of the handshake datagrams plus deviation-bounded exploration of everything else, judged by a nonce-provenance ledger; forged handshake frames are checked differentially against the same run without the forgery.", "4.C07", "explicit enumeration of handshake datagram fates + deviation-bounded stateless model checking of the endpoints against a handshake ledger; differential runs for forgeries", EW_NOTE),
+ "C08": ("model_checking", "Deviation-bounded exploration of application calls (send/disconnect/disconnect_now/drop/reconnect), datagram fates and timer-relevant step spacings on real endpoints; every event stream is run through the reference automaton.", "4.C08", "deviation-bounded stateless model checking of the endpoints against a per-connection event automaton", EW_NOTE),
+ "C09": ("model_checking", "Deviation-bounded exploration of fates and permanent blackouts around disconnect()/disconnect_now() by either side with 0-8 queued packets; flush-before-Disconnect and the 22 s termination budget are checked on every execution.", "4.C09", "deviation-bounded stateless model checking of the endpoints; bounded liveness", EW_NOTE),
+ "C10": ("model_checking", "Reference timers (active timeout, 10x2 s retry budgets) stepped alongside every explored execution over a grid of timeouts, keepalive settings, cadences and handshake losses, with deviating step spacings around the deadlines.", "4.C10", "deviation-bounded stateless model checking of the endpoints against reference timers", EW_NOTE),
  "C12": ("model_checking", "Transmissions per (packet, fragment) read from the wire of every explored execution and compared with the send-mode contract, using the acknowledgements actually handed to the sender.", "4.C12", "deviation-bounded stateless model checking; wire-level transmission monitor", LW_NOTE),
  "C13": ("model_checking", "Every pair of emission instants of every explored execution is checked against the rate bound C*(dt+RTT)+1472.", "4.C13", "deviation-bounded stateless model checking; all-intervals rate monitor", LW_NOTE),
  "C20": ("model_checking", "send_buffer_size() compared on every round of every explored execution with bounds derived from API calls and the wire.", "4.C20", "deviation-bounded stateless model checking against a byte-ledger reference model", LW_NOTE),
+ "C17": ("model_checking", "All interleavings of the handshake datagrams of 2-3 clients (complete enumeration; 4 clients deviation-bounded) against servers with small limits, with connections ending by disconnect, drop and timeout; limit ledger on the server's event stream and tracked count at every round.", "4.C17", "explicit enumeration of handshake interleavings on the real Server against a limit ledger", EW_NOTE),
+ "C18": ("fault_enumeration", "Every sequence of up to 3-4 raw datagrams from spoofable addresses (valid, repeated, undersized, wrong-version, refused SYNs and stray frames of every type) with waits up to the handshake timeout, against a real Server; byte ledger per address.", "4.C18", "exhaustive enumeration of attacker datagram sequences against the real Server with a byte ledger", EW_NOTE),
 }
 NA = {}
 ALL = ["C%02d" % i for i in range(1, 21)]
